@@ -79,11 +79,19 @@ pub struct Judge {
     pub x_seen: Vec<u8>,
 }
 
-#[derive(Clone, Debug, PartialEq, Eq)]
+#[derive(Clone, Debug, PartialEq, Eq, Default)]
 pub struct Finding {
     pub property: &'static str,
     pub step: usize,
     pub what: String,
+    /// structured facts for classification (wrong-value findings)
+    pub key: Option<Key>,
+    pub got: Option<Val>,
+    /// the executor activation that read the wrong value, with the
+    /// dependencies of that node's previous completed run
+    pub reader: Option<(Key, Option<Vec<Dep>>)>,
+    /// the key the user asked for in this step
+    pub root: Option<Key>,
 }
 
 /// What one history run produced.
@@ -108,6 +116,7 @@ pub struct Lockstep {
     pub act_log: Vec<(usize, Key)>,
     pub values: Vec<(usize, Key, Val)>,
     pub in_refresh: bool,
+    pub cur_root: Option<Key>,
     /// C03 judging can be disabled (e.g. after a restart boundary, where
     /// "previous read list" is still defined, or after cancellation)
     pub judge_on: bool,
@@ -125,18 +134,48 @@ impl Lockstep {
             act_log: Vec::new(),
             values: Vec::new(),
             in_refresh: false,
+            cur_root: None,
             judge_on: true,
         }
     }
 
     pub fn c01(&mut self, what: String) {
-        self.findings.push(Finding { property: "C01", step: self.step, what });
+        self.findings.push(Finding {
+            property: "C01",
+            step: self.step,
+            what,
+            root: self.cur_root,
+            ..Default::default()
+        });
+    }
+
+    pub fn c01_value(
+        &mut self,
+        what: String,
+        key: Key,
+        got: Val,
+        reader: Option<(Key, Option<Vec<Dep>>)>,
+    ) {
+        self.findings.push(Finding {
+            property: "C01",
+            step: self.step,
+            what,
+            key: Some(key),
+            got: Some(got),
+            reader,
+            root: self.cur_root,
+        });
     }
 
     pub fn c03(&mut self, what: String) {
         if self.judge_on {
-            self.findings
-                .push(Finding { property: "C03", step: self.step, what });
+            self.findings.push(Finding {
+                property: "C03",
+                step: self.step,
+                what,
+                root: self.cur_root,
+                ..Default::default()
+            });
         }
     }
 
@@ -149,12 +188,21 @@ impl Lockstep {
         self.r.absorb_external_runs(events);
 
         let mut open: HashMap<usize, (Key, Vec<(Dep, Val)>)> = HashMap::new();
+        // previous read lists as they were when each activation started
+        let mut prev_at_enter: HashMap<usize, Option<Vec<Dep>>> = HashMap::new();
         for e in events {
             match e {
                 Event::Enter { key, act, .. } => {
                     self.activations += 1;
                     self.act_log.push((self.step, *key));
                     open.insert(*act, (*key, Vec::new()));
+                    prev_at_enter.insert(
+                        *act,
+                        self.judge
+                            .last_reads
+                            .get(key)
+                            .map(|v| v.iter().map(|(d, _)| *d).collect()),
+                    );
                     // --- C03: is this activation justified? ---
                     match key {
                         Key::C(_) => {
@@ -204,10 +252,18 @@ impl Lockstep {
                     // --- C01: value handed to an executor ---
                     let want = self.r.eval(&self.p, rig::key_of_dep(*dep));
                     if want != Some(*val) {
-                        self.c01(format!(
-                            "executor read {dep:?} = {val}, from-scratch value \
-                             is {want:?}"
-                        ));
+                        let reader = open.get(act).map(|o| {
+                            (o.0, prev_at_enter.get(act).cloned().flatten())
+                        });
+                        self.c01_value(
+                            format!(
+                                "executor read {dep:?} = {val}, from-scratch \
+                                 value is {want:?}"
+                            ),
+                            rig::key_of_dep(*dep),
+                            *val,
+                            reader,
+                        );
                     }
                 }
                 Event::Exit { key, act, val } => {
@@ -228,9 +284,14 @@ impl Lockstep {
         self.values.push((self.step, k, v));
         let want = self.r.eval(&self.p, k);
         if want != Some(v) {
-            self.c01(format!(
-                "query {k:?} returned {v}, from-scratch value is {want:?}"
-            ));
+            self.c01_value(
+                format!(
+                    "query {k:?} returned {v}, from-scratch value is {want:?}"
+                ),
+                k,
+                v,
+                None,
+            );
         }
     }
 
@@ -331,6 +392,7 @@ pub async fn do_query<C: Config>(
 ) {
     let te = eng.clone().tracked().await;
     for k in keys {
+        ls.cur_root = Some(*k);
         let v = rig::query(sh, &te, *k).await;
         let ev = sh.take_events();
         ls.absorb(&ev);
@@ -345,6 +407,7 @@ pub async fn do_query<C: Config>(
             ls.c03(format!("repeated query {k:?} re-executed: {ev2:?}"));
         }
     }
+    ls.cur_root = None;
     drop(te);
 }
 
@@ -546,7 +609,15 @@ pub struct Search {
     cur: Option<(Vec<Op>, usize)>,
     root_done: bool,
     pub stats: SearchStats,
-    pub findings: Vec<(Vec<Op>, Finding)>,
+    pub findings: Vec<Case>,
+}
+
+/// A failing case: history, finding, executor-activation log of the run.
+#[derive(Debug, Clone)]
+pub struct Case {
+    pub hist: Vec<Op>,
+    pub finding: Finding,
+    pub acts: Vec<(usize, Key)>,
 }
 
 impl Search {
@@ -592,7 +663,11 @@ impl Search {
             self.root_done = true;
             self.seen.insert(fxhash::hash64(&r.canon));
             for f in r.findings {
-                self.findings.push((vec![], f));
+                self.findings.push(Case {
+                    hist: vec![],
+                    finding: f,
+                    acts: r.act_log.clone(),
+                });
             }
             self.frontier.push_back(vec![]);
             self.stats.states = 1;
@@ -608,8 +683,12 @@ impl Search {
             .collect();
         let bad = !new_findings.is_empty();
         for f in new_findings {
-            if self.findings.len() < 50 {
-                self.findings.push((h.clone(), f));
+            if self.findings.len() < 200 {
+                self.findings.push(Case {
+                    hist: h.clone(),
+                    finding: f,
+                    acts: r.act_log.clone(),
+                });
             }
         }
         // histories that already failed are not extended
@@ -634,4 +713,141 @@ impl Search {
         }
         self.frontier.iter().any(|h| h.len() < self.depth)
     }
+}
+
+// ---------------------------------------------------------------------------
+// classification of wrong-value findings (known-findings triggers)
+// ---------------------------------------------------------------------------
+
+fn reach(p: &Program, k: Key, out: &mut Vec<Key>) {
+    if let Key::C(j) = k {
+        for d in p.nodes[j as usize].body.deps() {
+            let kk = rig::key_of_dep(d);
+            if !out.contains(&kk) {
+                out.push(kk);
+                reach(p, kk, out);
+            }
+        }
+    }
+}
+
+/// keys strictly below `k` (static reachability)
+pub fn below(p: &Program, k: Key) -> Vec<Key> {
+    let mut v = Vec::new();
+    reach(p, k, &mut v);
+    v
+}
+
+/// Input snapshots: `snaps[0]` after the implicit initial session, one more
+/// after every session op; `at[i]` = index of the snapshot current at step i.
+pub fn snapshots(p: &Program, h: &[Op]) -> (Vec<Ref>, Vec<usize>) {
+    let mut r = Ref::default();
+    for i in inputs_of(p) {
+        r.set_input(i, 0);
+    }
+    // externals are judged against the world value
+    let mut snaps = vec![r.clone()];
+    let mut at = Vec::new();
+    for op in h {
+        match op {
+            Op::Session { writes, .. } => {
+                for w in writes {
+                    match w {
+                        W::Set(i, v) => {
+                            r.set_input(*i, *v);
+                        }
+                        W::Upd(i, d) => {
+                            let c = r.inputs[*i as usize].unwrap_or(0);
+                            r.set_input(*i, (c + d) % 3);
+                        }
+                        W::Refresh => {
+                            r.xsnap = r.world.map(Some);
+                        }
+                    }
+                }
+                snaps.push(r.clone());
+            }
+            Op::World(c, v) => r.world[*c as usize] = *v,
+            _ => {}
+        }
+        at.push(snaps.len() - 1);
+    }
+    (snaps, at)
+}
+
+/// Tags describing a wrong-value finding in terms of program + history only
+/// (pure functions of the reference model), used as known-finding triggers:
+///
+/// * `stale-behind-changed-firewall`: the wrong value is the key's
+///   from-scratch value under an earlier input snapshot, and a firewall
+///   strictly below the key has a different from-scratch value now;
+/// * `F10a-new-edge-onto-stale-node`: additionally the value was read by an
+///   executor activation whose previous run did not depend on the key (fresh
+///   caller, or a re-execution that picked up a new dependency);
+/// * `F10b-root-tfc-stale`: additionally a node strictly below the user's
+///   root was executed in an earlier epoch in which the root itself was not
+///   repaired, and the root has not been repaired since.
+pub fn classify(p: &Program, h: &[Op], acts: &[(usize, Key)], f: &Finding) -> Vec<String> {
+    let mut tags = Vec::new();
+    let (Some(x), Some(v)) = (f.key, f.got) else { return tags };
+    if f.step >= h.len() {
+        return tags;
+    }
+    let (snaps, at) = snapshots(p, h);
+    let t = at[f.step];
+    let with_x = |r: &Ref| {
+        let mut r = r.clone();
+        r.xsnap = r.world.map(Some);
+        r
+    };
+    let now = with_x(&snaps[t]);
+    let fws: Vec<Key> = below(p, x)
+        .into_iter()
+        .filter(|k| matches!(k, Key::C(j) if p.nodes[*j as usize].style == crate::pq::Style::F))
+        .collect();
+    let stale_fw = (0..t).any(|j| {
+        let old = with_x(&snaps[j]);
+        old.eval(p, x) == Some(v)
+            && now.eval(p, x) != Some(v)
+            && fws.iter().any(|fk| old.eval(p, *fk) != now.eval(p, *fk))
+    });
+    if !stale_fw {
+        return tags;
+    }
+    tags.push("stale-behind-changed-firewall".to_string());
+    if let Some((_rd, prev)) = &f.reader {
+        let had = prev
+            .as_ref()
+            .is_some_and(|d| d.iter().any(|d| rig::key_of_dep(*d) == x));
+        if !had {
+            tags.push("F10a-new-edge-onto-stale-node".to_string());
+        }
+    }
+    if let Some(root) = f.root {
+        let below_root = below(p, root);
+        let above_or_eq = |k: &Key| *k == root || below(p, *k).contains(&root);
+        let mut hit = false;
+        for s in 0..f.step {
+            let Op::Query(ks) = &h[s] else { continue };
+            if ks.iter().any(above_or_eq) {
+                continue;
+            }
+            let executed_below = acts
+                .iter()
+                .any(|(st, y)| *st == s && below_root.contains(y));
+            if !executed_below {
+                continue;
+            }
+            let repaired_since = (s + 1..f.step).any(|s2| {
+                matches!(&h[s2], Op::Query(k2) if k2.iter().any(above_or_eq))
+            });
+            if !repaired_since {
+                hit = true;
+            }
+        }
+        if hit {
+            tags.push("F10b-root-tfc-stale".to_string());
+        }
+    }
+    tags
 }
